@@ -26,11 +26,11 @@ GBeginSection == Len(secs) < MaxSecs /\ (secs = <<>> \/ NStmts > 0) /\ \E id \in
 Blobs == {<<170, 187, 204, 221>>, <<1, 2, 3, 4, 5, 6, 7, 8>>, <<18, 52>>}
 StmtMenu ==
      {[s |-> "load_blob", addr |-> a, blob |-> b, mem |-> m] : a \in ExprMenu, b \in Blobs, m \in {0, 288}}
-\cup {[s |-> "load_file", addr |-> a, data |-> d, mem |-> 0, via |-> v] : a \in ExprMenu, d \in {Iota(5), Iota(16)}, v \in {"literal", "source", "extern"}}
+\cup {[s |-> "load_file", addr |-> a, data |-> d, mem |-> m, via |-> v] : a \in ExprMenu, d \in {Iota(5), Iota(16)}, m \in {0, 288, 9}, v \in {"literal", "source", "extern"}}
 \cup {[s |-> "fill", addr |-> a, pat |-> p[1], sz |-> p[2]] : a \in ExprMenu, p \in {<<171, "b">>, <<4660, "h">>, <<305419896, "w">>}}
 \cup {[s |-> "fill_range", lo |-> a, hi |-> b, pat |-> p[1], sz |-> p[2]] : a \in ExprMenu, b \in ExprMenu, p \in {<<171, "b">>, <<305419896, "w">>}}
 \cup {[s |-> "erase_range", lo |-> a, hi |-> b, mem |-> m] : a \in ExprMenu, b \in ExprMenu, m \in {0, 8}}
-\cup {[s |-> "erase_addr", addr |-> a, mem |-> m] : a \in ExprMenu, m \in {0, 288}}
+\cup {[s |-> "erase_addr", addr |-> a, mem |-> m] : a \in ExprMenu, m \in {0, 288, 257}}
 \cup {[s |-> "erase_all", mem |-> m] : m \in {0, 8}}
 \cup {[s |-> "erase_unsecure_all"]}
 \cup {[s |-> "enable", addr |-> a, mem |-> m] : a \in ExprMenu, m \in {1, 9}}
